@@ -125,12 +125,12 @@ def observe (s : Store) (evs : List Event) (times : List Nat) (probes : List PSp
   return p.render
 
 /-- arrival sequence with the op's failure codes: an Add whose first or second write transaction fails (1, 2, 3)
-    leaves the modelled state unchanged (the txRef / document shelves are content addressed and only ever read
+    or one of whose shelf operations fails (100+k) leaves the modelled state unchanged (the txRef / document shelves are content addressed and only ever read
     for refs of listed events); 4 = restart (cache reload) before a plain Add -/
 def runSeq (s : Store) : List (Event × Nat) → Res Store
   | [] => .ok s
   | (e, code) :: rest =>
-    if code = 1 ∨ code = 2 ∨ code = 3 then runSeq s rest
+    if code = 1 ∨ code = 2 ∨ code = 3 ∨ code > 100 then runSeq s rest
     else
       let s0 := if code = 4 then reload s else s
       match add cfg s0 e with
